@@ -7,6 +7,8 @@ mod env;
 mod p_c01;
 mod p_c05;
 mod p_c15;
+mod p_c18;
+mod p_c19;
 mod p_c04;
 mod p_shuffle;
 mod p_keys;
@@ -45,6 +47,8 @@ fn run_prop<C: NatCtx>(h: &mut Harness, ctx: C, builtin: bool) {
         "C16" => p_misc::run_c16(&mut v),
         "C17" => p_misc::run_c17(&mut v),
         "C15" => p_c15::run(&mut v),
+        "C18" => p_c18::run(&mut v),
+        "C19" => p_c19::run(&mut v),
         _ => panic!("unknown property {}", prop),
     }));
     strand::verif_hooks::load_exp_tape(vec![]);
